@@ -9,9 +9,15 @@ Space (every member is executed on the real ColorsConfig / Palette machinery):
   histories        : every split into (explicit initial configuration, later component registrations) x
                      every ordered set partition of the later registrations (order x batching);
                      an explicit entry that conflicts with a later default (family "conflict")
+  two configs      : K1 then K2 in one process over sets that share the text of a description with a parent
+                     reference and differ in the parent's description; K2 judged by the reference for K2 alone
+  isolation        : ak.color is re-executed (importlib.reload) before every replay, every two-config case and
+                     every 16 description sets of a shard; a disagreement is re-judged in a pristine module and,
+                     if it only occurs after earlier configurations, reported with that history
   variations       : stand-alone / installed as the global configuration / no_color; nested or flat
                      spelling; registration through Palette construction, Palette.register_in_colors_conf,
-                     ColorsConfig.add_new_items, or one PARENT_PALETTES chain
+                     ColorsConfig.add_new_items, one PARENT_PALETTES chain, or same-named
+                     classes from a class factory
 Oracle after the construction and after **every** registration step: models/resolver.py on the current set
 of winning descriptions -> expected (fg, bg, effects); the formatter of every id (and of an unknown id) is
 rendered and read back by the SGR emulator; a palette class over the ids, conf.get_palette(), and in global
@@ -52,7 +58,8 @@ REQUIRED_FEATURES = ["pending-then-resolved", "unknown-parent-stays-uncolored", 
                      "color-id-0", "color-id-0-overrides-parent-color",
                      "nested:three-levels-explicit", "nested:three-levels-component",
                      "flat:three-levels-explicit", "flat:three-levels-component",
-                     "nested:three-levels-explicit-beats-default"]
+                     "nested:three-levels-explicit-beats-default", "mech:factory", "factory:two-classes-same-name",
+                     "two-configs", "two-configs:shared-text-parent-modifiers-differ"]
 
 INH, DFL = R.INHERIT, R.DEFAULT
 UNKNOWN = "U"
@@ -152,6 +159,7 @@ def families(tier):
     allvar = [(mode, sp, mech) for mode in ("standalone", "global", "no_color", "standalone-text")
               for sp, mech in (("nested", "palette-ctor"), ("flat", "palette-ctor"), ("nested", "register"),
                                ("flat", "register"), ("flat", "add_new_items"), ("nested", "parents"))]
+    allvar += [("standalone", "nested", "factory"), ("global", "flat", "factory")]
     somevar = [("global", "nested", "palette-ctor"), ("global", "flat", "add_new_items"),
                ("no_color", "nested", "palette-ctor"), ("standalone", "flat", "register"),
                ("standalone", "nested", "parents"), ("global", "nested", "register"),
@@ -174,6 +182,9 @@ def families(tier):
     return fam
 
 
+TWO_CONFIG_SHARDS = 8
+
+
 def bounds(tier):
     b = {"menu_parentless": [t[1] for t in ROOT_TEMPLATES], "menu_with_parent": [t[1] for t in REF_TEMPLATES],
          "reduced_menu": list(REDUCED_ROOT) + list(REDUCED_REF), "families": {}}
@@ -189,6 +200,7 @@ def shards(tier):
     for name, n, red, bi, var, nsh in families(tier):
         for k in range(nsh):
             out.append((name, k, nsh))
+    out += [("two-configs", k, TWO_CONFIG_SHARDS) for k in range(TWO_CONFIG_SHARDS)]
     return out
 
 
@@ -423,7 +435,9 @@ def execute(n, strs, sem, explicit, batches, conflict, spelling, mech, mode, acc
                 if mech == "add_new_items":
                     target().add_new_items(dict(it), f"component {bi}")
                 else:
-                    comp = _mk_palette_class(f"Comp{bi}", [i for i in it if i in ACCESSOR], spell(it, spelling))
+                    # "factory": distinct classes that share module and qualified name (class factory called twice)
+                    comp = _mk_palette_class("Component" if mech == "factory" else f"Comp{bi}",
+                                             [i for i in it if i in ACCESSOR], spell(it, spelling))
                     if mech == "register":
                         comp.register_in_colors_conf(target())
                     elif glob:
@@ -437,7 +451,7 @@ def execute(n, strs, sem, explicit, batches, conflict, spelling, mech, mode, acc
             for i in blist[bi]:
                 registered.setdefault(i, sem[i])
             check(step, conf)
-            if mech == "palette-ctor" and it and not no_color:
+            if mech in ("palette-ctor", "factory") and it and not no_color:
                 # the component's own palette reflects the state after its registration
                 for i in it:
                     if i in ACCESSOR:
@@ -537,7 +551,17 @@ def classify(pr, n, strs, sem, registered_ids, spelling="flat"):
 
 
 # ------------------------------------------------------------------------------------------------ driver
-def run_one(n, strs, sem, explicit, batches, conflict, spelling, mech, mode, acc, sample=False):
+def _pristine():
+    """A pristine ak.color for the next case(s): the module is re-executed (every class-level / module-level
+    cache, documented or not, starts empty) and the palette classes of the harness are rebuilt on it."""
+    import importlib
+    importlib.reload(impl)
+    for n_, ids_ in FAMILY_IDS.items():
+        PAL[n_] = _mk_palette_class(f"VerifPal{n_}", ids_)
+        SPAL[n_] = _mk_palette_class(f"VerifSyncedPal{n_}", ids_)
+
+
+def _case_features(n, sem, explicit, batches, conflict, spelling, mech, mode):
     feats = {"spelling:" + spelling, "mode:" + mode.split("-")[0], "mech:" + mech}
     sp = "flat" if mech == "add_new_items" else spelling
     if any(i.count(".") >= 2 for i in explicit):
@@ -546,30 +570,141 @@ def run_one(n, strs, sem, explicit, batches, conflict, spelling, mech, mode, acc
             feats.add("nested:three-levels-explicit-beats-default")
     if any(i.count(".") >= 2 for b in batches for i in b):
         feats.add(sp + ":three-levels-component")
+    if mech == "factory" and len(batches) + (1 if conflict else 0) >= 2:
+        feats.add("factory:two-classes-same-name")
     pending = measure_features(n, sem, explicit, batches, feats)
-    case = None
-    outcome = "ok"
+    return feats, pending
+
+
+def judge(case, acc, feats=None):
+    """Execute one recorded case in the current module state. -> None or (signature, Problem)."""
+    n = case["n"]
+    strs = case["descr"]
+    sem = {i: semantics(s) for i, s in strs.items()}
+    explicit, batches = case["explicit"], case["batches"]
+    conflict = tuple(case["conflict"]) if case.get("conflict") else None
+    spelling, mech, mode = case["spelling"], case["mech"], case["mode"]
+    if feats is None:
+        feats = set()
     try:
-        execute(n, strs, sem, explicit, batches, conflict, spelling, mech, mode, acc, feats)
+        try:
+            execute(n, strs, sem, explicit, batches, conflict, spelling, mech, mode, acc, feats)
+        except Problem:
+            raise
+        except Exception as e:  # noqa  -- whatever the package raises is a verdict, never a crash of the harness
+            raise Problem("raises-" + type(e).__name__, -1, None, None,
+                          f"the package raised {type(e).__name__} outside a registration", repr(e), "no exception")
     except Problem as pr:
         done = list(explicit)
         for b in batches[:max(pr.step, 0)]:
             done += b
-        if mech == "parents":
+        if mech == "parents" or pr.step < 0:
             done = list(explicit) + [i for b in batches for i in b]
-        sig = classify(pr, n, strs, sem, done, "flat" if mech == "add_new_items" else spelling)
-        case = mk_case(n, strs, explicit, batches, conflict, spelling, mech, mode)
-        acc.violation("C14:" + sig, case, pr.msg, {"step": pr.step, "id": pr.sid, "view": pr.view, "observed": pr.obs},
-                      pr.exp)
-        outcome = "violation:" + sig
+        try:
+            sig = classify(pr, n, strs, sem, done, "flat" if mech == "add_new_items" else spelling)
+            if mech == "factory" and judge(dict(case, mech="palette-ctor"), _quiet()) is None:
+                # the same registrations through differently named classes are fine
+                sig = "same-named-component-classes:defaults-of-a-later-class-ignored"
+        except Exception as e:  # noqa
+            sig = f"{pr.kind}:unclassified"
+        return sig, pr
+    return None
+
+
+_RECHECKS = {}
+MAX_RECHECKS = 10
+_NULL = None
+
+
+def _quiet():
+    from mc import core
+    return core.Acc()
+
+
+def report_checked(acc, sig, pr, case, hist):
+    """A disagreement found while other cases ran earlier in this process: decide whether the case fails on
+    its own (pristine module) or only after an earlier configuration, and report a replayable witness."""
+    full = "C14:" + sig
+    obs = {"step": pr.step, "id": pr.sid, "view": pr.view, "observed": pr.obs}
+    if _RECHECKS.get(sig, 0) >= MAX_RECHECKS:
+        acc.viol_count[full] += 1                      # counted; enough checked witnesses of this class exist
+        return full
+    _RECHECKS[sig] = _RECHECKS.get(sig, 0) + 1
+    earlier = list(hist)
+    del hist[:]
+    _pristine()
+    alone = judge(case, _quiet())
+    if alone is not None and alone[0] == sig:
+        acc.violation(full, case, pr.msg, obs, pr.exp)
+        return full
+    # not reproducible on its own: which earlier configuration(s) does it depend on?
+    budget = [80]
+
+    def reproduces(prefix):
+        budget[0] -= 1
+        _pristine()
+        q = _quiet()
+        for c in prefix:
+            judge(c, q)
+        r = judge(case, _quiet())
+        return r is not None and r[0] == sig
+
+    texts = set(case["descr"].values())
+    culprit = None
+    for c in [c for c in reversed(earlier) if texts & set(c["descr"].values())][:40]:
+        if reproduces([c]):
+            culprit = [c]
+            break
+    if culprit is None and reproduces(earlier):
+        culprit = list(earlier)
+        nparts = 2
+        while len(culprit) >= 2 and budget[0] > 0:              # ddmin-lite on the list of earlier cases
+            chunk = max(len(culprit) // nparts, 1)
+            for i in range(0, len(culprit), chunk):
+                trial = culprit[:i] + culprit[i + chunk:]
+                if budget[0] > 0 and reproduces(trial):
+                    culprit = trial
+                    nparts = max(nparts - 1, 2)
+                    break
+            else:
+                if chunk == 1:
+                    break
+                nparts = min(nparts * 2, len(culprit))
+    _pristine()
+    if culprit is None:
+        acc.violation("C14:not-reproducible:" + sig, case, pr.msg + " (seen once after other configurations, "
+                      "reproducible neither alone nor after them)", obs, pr.exp)
+        return "C14:not-reproducible:" + sig
+    hsig = "C14:depends-on-earlier-config:" + pr.kind
+    acc.violation(hsig, dict(case, history=culprit),
+                  pr.msg + "; the same case is judged correct in a pristine process: the result depends on a "
+                  "ColorsConfig built earlier", obs, pr.exp)
+    return hsig
+
+
+def run_one(n, strs, sem, explicit, batches, conflict, spelling, mech, mode, acc, sample=False, hist=None):
+    feats, pending = _case_features(n, sem, explicit, batches, conflict, spelling, mech, mode)
+    case = mk_case(n, strs, explicit, batches, conflict, spelling, mech, mode)
+    outcome = "ok"
+    r = judge(case, acc, feats)
+    if r is not None:
+        sig, pr = r
+        if hist is None:
+            acc.violation("C14:" + sig, case, pr.msg,
+                          {"step": pr.step, "id": pr.sid, "view": pr.view, "observed": pr.obs}, pr.exp)
+            outcome = "violation:" + sig
+        else:
+            outcome = "violation:" + report_checked(acc, sig, pr, case, hist)[4:]
+    elif hist is not None:
+        hist.append(case)
     nt = pending or conflict is not None
     fin = next((f for f in feats if f.startswith("final-colored:")), "final-colored:?")
     feats.discard(fin)
     if outcome == "ok":
         outcome = "ok:" + fin + ("/pending-on-the-way" if pending else "")
     acc.case(nontrivial=nt, features=feats, outcome=outcome)
-    if sample and case is None:
-        acc.sample(mk_case(n, strs, explicit, batches, conflict, spelling, mech, mode))
+    if sample and r is None:
+        acc.sample(case)
 
 
 def mk_case(n, strs, explicit, batches, conflict, spelling, mech, mode):
@@ -577,40 +712,119 @@ def mk_case(n, strs, explicit, batches, conflict, spelling, mech, mode):
             "conflict": list(conflict) if conflict else None, "spelling": spelling, "mech": mech, "mode": mode}
 
 
-def run_shard(shard, tier, seed, acc):
-    name, k, nsh = shard
-    fam = [f for f in families(tier) if f[0] == name][0]
-    _, n, reduced, with_builtin, variants, _ = fam
-    scen = scenarios(n)
-    ids = FAMILY_IDS[n]
-    for idx, (strs, sem) in enumerate(assignments(n, reduced, with_builtin)):
+RELOAD_EVERY = 16          # description sets per pristine module (history of a case = earlier cases of its batch)
+
+
+def two_config_pairs():
+    """(K1, K2): two description sets over {A, T.U.D} that share the text of a description referring to a
+    parent and differ in the parent's own description."""
+    ids = FAMILY_IDS[2]
+    out = []
+    for child, parent in ((ids[1], ids[0]), (ids[0], ids[1])):
+        roots = [s_ for s_, d in menu(parent, ids, False, False, False) if d.parent is None]
+        refs = [s_ for s_, d in menu(child, ids, False, False, False) if d.parent == parent]
+        for t in refs:
+            for r1 in roots:
+                for r2 in roots:
+                    if r1 != r2:
+                        out.append(({parent: r1, child: t}, {parent: r2, child: t}, child, parent))
+    return out
+
+
+def run_two_configs(k, nsh, acc):
+    ids = FAMILY_IDS[2]
+    for idx, (d1, d2, child, parent) in enumerate(two_config_pairs()):
         if idx % nsh != k:
             continue
         if acc.expired():
             return
-        for (mode, spelling, mech) in variants:
-            for si, (explicit, batches) in enumerate(scen):
-                if name.startswith("conflict"):
-                    if not explicit:
+        first = mk_case(2, d1, ids, [], None, "flat", "palette-ctor", "standalone")
+        for explicit, batches in ((ids, []), ([child], [[parent]]), ([], [[parent], [child]])):
+            second = mk_case(2, d2, explicit, batches, None, "nested", "palette-ctor", "standalone")
+            _pristine()
+            judge(first, _quiet())
+            sem = {i: semantics(s_) for i, s_ in d2.items()}
+            feats, pending = _case_features(2, sem, explicit, batches, None, "nested", "palette-ctor", "standalone")
+            feats.add("two-configs")
+            if semantics(d1[parent]).mods != semantics(d2[parent]).mods:
+                feats.add("two-configs:shared-text-parent-modifiers-differ")
+            r = judge(second, acc, feats)
+            outcome = "two-configs-ok"
+            if r is not None:
+                hist = [first]
+                outcome = "violation:" + report_checked(acc, r[0], r[1], second, hist)[4:]
+            feats = {f for f in feats if not f.startswith("final-colored:")}
+            acc.case(nontrivial=True, features=feats, outcome=outcome)
+            acc.trans(2)
+    _pristine()
+
+
+def run_shard(shard, tier, seed, acc):
+    name, k, nsh = shard
+    _RECHECKS.clear()
+    if name == "two-configs":
+        run_two_configs(k, nsh, acc)
+        return
+    fam = [f for f in families(tier) if f[0] == name][0]
+    _, n, reduced, with_builtin, variants, _ = fam
+    scen = scenarios(n)
+    ids = FAMILY_IDS[n]
+    hist = []
+    done = 0
+    _pristine()
+    try:
+        for idx, (strs, sem) in enumerate(assignments(n, reduced, with_builtin)):
+            if idx % nsh != k:
+                continue
+            if acc.expired():
+                return
+            if done % RELOAD_EVERY == 0 and done:
+                _pristine()
+                del hist[:]
+            done += 1
+            for (mode, spelling, mech) in variants:
+                for si, (explicit, batches) in enumerate(scen):
+                    if name.startswith("conflict"):
+                        if not explicit:
+                            continue
+                        for cid in explicit:
+                            for cstr, cdescr in CONFLICT_LOSERS:
+                                if cdescr.parent == cid or (cdescr.parent is not None and cdescr.parent not in ids):
+                                    continue
+                                for cpos in range(len(batches) + 1):
+                                    run_one(n, strs, sem, explicit, batches, (cid, cstr, cpos), spelling, mech, mode,
+                                            acc, hist=hist)
                         continue
-                    for cid in explicit:
-                        for cstr, cdescr in CONFLICT_LOSERS:
-                            if cdescr.parent == cid or (cdescr.parent is not None and cdescr.parent not in ids):
-                                continue
-                            for cpos in range(len(batches) + 1):
-                                run_one(n, strs, sem, explicit, batches, (cid, cstr, cpos), spelling, mech, mode, acc)
-                    continue
-                run_one(n, strs, sem, explicit, batches, None, spelling, mech, mode, acc,
-                        sample=(idx % 211 == 3 and si == len(scen) // 2))
+                    run_one(n, strs, sem, explicit, batches, None, spelling, mech, mode, acc,
+                            sample=(idx % 211 == 3 and si == len(scen) // 2), hist=hist)
+    finally:
+        _pristine()
 
 
 def replay(case, acc):
-    n = case["n"]
-    strs = case["descr"]
-    sem = {i: semantics(s) for i, s in strs.items()}
-    conflict = tuple(case["conflict"]) if case.get("conflict") else None
-    run_one(n, strs, sem, case["explicit"], case["batches"], conflict, case["spelling"], case["mech"],
-            case["mode"], acc)
+    """Every replay starts from a pristine module; a case with a history is first judged alone, then after it."""
+    try:
+        _pristine()
+        plain = {k_: v for k_, v in case.items() if k_ != "history"}
+        r = judge(plain, acc if "history" not in case else _quiet())
+        if "history" not in case:
+            if r is not None:
+                sig, pr = r
+                acc.violation("C14:" + sig, case, pr.msg, {"step": pr.step, "id": pr.sid, "view": pr.view,
+                                                           "observed": pr.obs}, pr.exp)
+        else:
+            if r is not None:                       # fails on its own: an ordinary violation of that class
+                acc.violation("C14:" + r[0], case, r[1].msg, r[1].obs, r[1].exp)
+            else:
+                _pristine()
+                for c in case["history"]:
+                    judge(c, _quiet())
+                r = judge(plain, acc)
+                if r is not None:
+                    acc.violation("C14:depends-on-earlier-config:" + r[1].kind, case, r[1].msg, r[1].obs, r[1].exp)
+        acc.case()
+    finally:
+        _pristine()
 
 
 def selftest():
